@@ -321,19 +321,8 @@ def run(A, R: Report, thorough: bool):
         calls = [n for n in A.typer.own_nodes(f) if isinstance(n, ast.Call) and isinstance(n.func, ast.Attribute) and n.func.attr == '_create_tasks']
         R.require(calls, 'anchor: _create_tasks call not found in Chain._prepare')
         for c in calls:
-            arg = None
-            for kw in c.keywords:
-                if kw.arg == 'task_registry':
-                    arg = kw.value
-            if arg is None and c.args:
-                arg = c.args[0]
-            pm_value = None
-            if arg is None:
-                pm_value = 'None'
-            elif isinstance(arg, ast.IfExp) and 'parameter_mode' in src(arg.test):
-                pm_value = src(arg.body) if not (isinstance(arg.test, ast.UnaryOp)) else src(arg.orelse)
-            else:
-                pm_value = src(arg)
+            from .common import first_pass_registry
+            pm_value = first_pass_registry(A, f, c)
             if pm_value == 'None':
                 R.ok('R01.6', 'Chain._prepare: first pass', 'no registry in parameter mode: one object per declaration', where=where(f, c))
             else:
